@@ -45,12 +45,27 @@ def run(pid, tier, args):
             elif p[0] == "DONE":
                 v.validated(int(p[1]))
         v.notes["schedules"] = {"replayed": len(lines_all), "result_mismatches": nm, "gate_sequence_drift": nd}
-        out = vlib.vh(vhbin, ["conc-history"])
-        for line in out.splitlines():
-            p = line.split("\t")
-            if p[0] == "MISMATCH":
-                v.violation("history dependence: " + p[1][:300], {"property": pid, "kind": "history", "detail": p[1]})
-            v.validated(1)
+        hf = os.path.join(wd, "history.ndjson")
+        out = vlib.vh(vhbin, ["conc-history", hf])
+        described = [line.split("\t") for line in out.splitlines()]
+        # the (call, result) observations are validated against History.tla (a call's result does not depend on the object's past)
+        hres = vlib.run_tlc(wd, "Trace_History", modules=["History"], workers=1, dfs=True, timeout=900, extra_files=[hf])
+        v.add_tlc(hres)
+        rej = [int(f[0]) for f in vlib.parse_lines(hres.lines, "REJECTED")]
+        nev = sum(1 for _ in open(hf))
+        if nev < 20:
+            raise Infra("too few history observations (%d)" % nev)
+        if rej:
+            ev = json.loads(open(hf).read().splitlines()[rej[0] - 1])
+            detail = next((p[1] for p in described if p[0] == "MISMATCH"), "")
+            v.violation("history dependence (Trace_History rejects observation %d): call %r after %r does not return what it returns on a fresh object. %s" % (rej[0], ev["call"], ev["after"], detail[:300]),
+                        {"property": pid, "kind": "history", "event": ev, "detail": detail})
+        elif not hres.ok:
+            raise Infra("Trace_History: %s" % (hres.violation or hres.error))
+        elif any(p[0] == "MISMATCH" for p in described):
+            raise Infra("the harness reports a history mismatch that Trace_History accepts (binding defect)")
+        v.validated(nev)
+        v.notes["history_observations"] = "%d (call, result) observations accepted by Trace_History" % nev
         # free-running stress under the race detector (shared parser, definitions, generated definition, ebnf parser)
         graw = os.path.join(wd, "core.json")
         gen_lex.write(graw, list("ab"), [{"id": "core", "rules": api.CORE_RULES}])
